@@ -166,6 +166,9 @@ Definition wf_ninstr (i : ninstr) : bool :=
 Definition wf_nstep (s : nstep) : bool := (n_fid s <? 2 ^ 64)%N && (N.of_nat (List.length (n_args s)) <? 2 ^ 32)%N.
 (* every count, offset and length of the computed header fits its field (u32 counts, u64 offsets) *)
 Definition size_ok (e : lenv) (P : list ninstr) : bool := wf_fields header_widths (p_header (lower e P)).
+(* the payload length CompileCtx::compile computes (file_len_before_trailer = dict_off + dict_len): header + sections *)
+Definition payload_len (e : lenv) (P : list ninstr) : N :=
+  (hfield (p_header (lower e P)) 19 + hfield (p_header (lower e P)) 20)%N.
 
 (* ---------- Interpreter::run_program on a loaded program ---------- *)
 Inductive cend := CEok | CEerr | CEpanic.
